@@ -515,7 +515,7 @@ def _precondition_blocks(
   formula = inputs + "->" + blocked_output
   with jax.named_scope("PreconditionShampoo"):
     print(formula, update.shape, [x.shape for x in preconditioners])
-    return jnp.einsum(formula, update, *preconditioners)
+    return jnp.einsum(formula, update, *preconditioners).astype(update.dtype)
 
 
 def _split_exclusively(
